@@ -911,6 +911,85 @@ func (x *extractor) factsAds() {
 		po = strings.Join(names, "<")
 	}
 	x.set("ping_order", po)
+	// every hop a notice takes from the node's broker to the reader of SubscribeUnreachable is a blocking hand-off on an
+	// unbuffered channel: no buffer that could fill up, no `default` branch that could discard
+	hops := "unknown"
+	{
+		var parts []string
+		selectKind := func(n ast.Node, sendTo string) string {
+			// the select (or plain send) that sends on sendTo inside n
+			kind := "none"
+			ast.Inspect(n, func(m ast.Node) bool {
+				switch v := m.(type) {
+				case *ast.SelectStmt:
+					hasSend, hasDefault, other := false, false, []string{}
+					for _, c := range v.Body.List {
+						cc := c.(*ast.CommClause)
+						if cc.Comm == nil {
+							hasDefault = true
+							continue
+						}
+						if ss, ok := cc.Comm.(*ast.SendStmt); ok && x.str(ss.Chan) == sendTo {
+							hasSend = true
+						} else {
+							other = append(other, x.str(cc.Comm))
+						}
+					}
+					if hasSend {
+						kind = "select-send"
+						if hasDefault {
+							kind += "+default"
+						}
+						sort.Strings(other)
+						for _, o := range other {
+							kind += "|" + o
+						}
+					}
+				case *ast.SendStmt:
+					if x.str(v.Chan) == sendTo && kind == "none" {
+						kind = "plain-send"
+					}
+				}
+				return true
+			})
+			return kind
+		}
+		chanMake := func(n ast.Node, lhs string) string {
+			r := "?"
+			ast.Inspect(n, func(m ast.Node) bool {
+				switch v := m.(type) {
+				case *ast.AssignStmt:
+					if len(v.Lhs) == 1 && x.str(v.Lhs[0]) == lhs {
+						r = x.str(v.Rhs[0])
+					}
+				case *ast.KeyValueExpr:
+					if x.str(v.Key) == lhs {
+						r = x.str(v.Value)
+					}
+				}
+				return true
+			})
+			return r
+		}
+		const bk = "pkg/utils/broker.go"
+		if fd := x.fn(bk, "Broker", "start"); fd != nil {
+			parts = append(parts, "broker.deliver:"+selectKind(fd, "msgCh"))
+		}
+		if fd := x.fn(bk, "Broker", "Publish"); fd != nil {
+			parts = append(parts, "broker.publish:"+selectKind(fd, "b.publishCh"))
+		}
+		if fd := x.fn(bk, "Broker", "Subscribe"); fd != nil {
+			parts = append(parts, "broker.sub-chan:"+chanMake(fd, "msgCh"))
+		}
+		if fd := x.fn(bk, "", "NewBroker"); fd != nil {
+			parts = append(parts, "broker.publish-chan:"+chanMake(fd, "publishCh"))
+		}
+		if fd := x.fn("pkg/netceptor/packetconn.go", "PacketConn", "SubscribeUnreachable"); fd != nil {
+			parts = append(parts, "sub.chan:"+chanMake(fd, "uChan"), "sub.forward:"+selectKind(fd, "uChan"))
+		}
+		hops = strings.Join(parts, ";")
+	}
+	x.set("unreach_hops", hops)
 	x.set("ads_relay", relay)
 }
 
